@@ -356,13 +356,13 @@ def _r4(ctx):
 def _r5(ctx):
     ctx.rule("R5", "all per-port totals come from get_throughput_sum (rounded column sums over lines with throughput != 0)")
     s = ctx.func("ArchSemantics.get_throughput_sum")
-    k = s.params()[0]
-    sel = pm.find("M_p = [M_i.port_pressure for M_i in %s if M_i.throughput != 0.0]" % k, s.node)
-    tot = pm.find("M_t = [round(sum(M_c), 2) for M_c in zip(*%s)]" % (U(sel[0][1]["M_p"]) if sel else "port_pressures"), s.node)
-    rets = [r for r in ast.walk(s.node) if isinstance(r, ast.Return)]
-    ctx.check(bool(sel) and bool(tot) and len(rets) == 1 and U(rets[0].value) == U(tot[0][1]["M_t"]), "R5",
-              "get_throughput_sum = [round(sum(column), 2)] over lines with throughput != 0.0", s.where(),
-              "get_throughput_sum is no longer the rounded column sum over the lines with non-zero throughput", s.qname, "aggregator shape")
+    sh = C.aggregator_shape(ctx)
+    good = sh["ok"] and sh["rows_elt"] == "I.port_pressure" and sh["filter"] == ["I.throughput != 0.0"] and not sh["inner_rounds"] \
+        and C.const_value(ctx, s, sh["digits"]) == 2
+    ctx.judge(good, sh["ok"], "R5", "get_throughput_sum = [round(sum(column), 2)] over lines with throughput != 0.0", s.where(),
+              "get_throughput_sum is no longer the rounded column sum over the lines with non-zero throughput (rows: %s, filter: %s, "
+              "digits: %s%s)" % (sh["rows_elt"], sh["filter"], U(sh["digits"]) if sh["digits"] is not None else None,
+                                 ", per-line rounding" if sh["inner_rounds"] else "") if sh["ok"] else sh["why"], s.qname, "aggregator shape")
     # no other cross-instruction summation over port_pressure
     offenders = []
     users = 0
